@@ -18,4 +18,5 @@ Definition modelled_methods : list string :=
   ; "reloadConfiguration"             (* to_reload, PReload, PSetup false *)
   ; "setCollectorState"               (* ASetState *)
   ; "setupConfigurationComponents"    (* setup *)
-  ; "shutdown" ].                     (* to_final, PFinal *)
+  ; "shutdown"                        (* to_final, PFinal *)
+  ; "shutdownService" ].              (* drain: asyncErrorChannel is received and discarded while a service shuts down *)
